@@ -213,6 +213,26 @@ class PrintTaint:
             # helper methods of the same class that return strings built from integers only
             if isinstance(f, ast.Attribute) and isinstance(f.value, ast.Name) and f.value.id in {"self", "cls"} and f.attr in self.safe_methods:
                 return True, ""
+            # helper method of the same class that receives the printer: judge its returns
+            if isinstance(f, ast.Attribute) and isinstance(f.value, ast.Name) and f.value.id in {"self", "cls"} and self.fn.cls is not None:
+                helper = self.tree.lookup_method(self.fn.cls, f.attr)
+                passes_printer = any(isinstance(a, ast.Name) and a.id == p for a in [*node.args, *[k.value for k in node.keywords]])
+                if helper is not None and passes_printer and depth < 6 and helper is not self.fn:
+                    idx = next(i for i, a in enumerate(node.args) if isinstance(a, ast.Name) and a.id == p) if any(isinstance(a, ast.Name) and a.id == p for a in node.args) else None
+                    sub = PrintTaint(self.tree, helper, self.class_literals, self.safe_methods)
+                    if idx is not None and len(helper.params) > idx + 1:
+                        sub.printer = helper.params[idx + 1]
+                    else:
+                        kw = next((k.arg for k in node.keywords if isinstance(k.value, ast.Name) and k.value.id == p), None)
+                        if kw:
+                            sub.printer = kw
+                    rets = [n for n in walk_function(helper.node, nested=False) if isinstance(n, ast.Return) and n.value is not None]
+                    if rets:
+                        for r in rets:
+                            ok, why = sub.classify(r.value, depth + 1)
+                            if not ok:
+                                return False, f"helper {helper.qual}: {why}"
+                        return True, ""
             return False, f"value of call {unparse(node)[:60]} does not pass the printer"
         if isinstance(node, ast.Attribute):
             chain = attr_chain(node)
